@@ -285,6 +285,19 @@ theorem value_sort_le_chain_partial (d : Nat) (arr : Array JVal)
   rw [val_le_eq]
   revert t; cases Val.lt x y <;> cases Val.eq x y <;> simp
 
+/-! ### The executable predicates the S3 oracle evaluates on C++ results are the stated notions -/
+
+theorem oracle_permutation_sound {α : Type} [BEq α] [LawfulBEq α] (out inp : List α) :
+    isPermOf out inp = true ↔ out.Perm inp := isPermOf_iff out inp
+
+theorem oracle_ordered_sound {α : Type} (before : α → α → Bool) (l : List α) :
+    tableOrdered (pairsTable before l) = true ↔ l.Pairwise (fun x y => before y x = false) := by
+  rw [tableOrdered_pairsTable]; exact orderedBy_iff before l
+
+theorem oracle_chain_sound {α : Type} (le : α → α → Bool) (l : List α) :
+    tableChain (chainTable le l) = true ↔ l.Pairwise (fun x y => le x y = true) :=
+  tableChain_chainTable le l
+
 /-! Non-vacuity of the hypotheses, on concrete non-trivial instances. -/
 example : noNaN (.ptr (.real (some 3))) = true ∧ noNaN (.str [1]) = true := by decide
 example : depth (.ptr (.str [97])) = depth (.ptr (.obj 2)) := by decide
